@@ -15,6 +15,12 @@ Definition input_of (s : sx) : input :=
   | 3 => IReceipt (n_at s 1) (n_at s 2) (b_at s 3)
   | 4 => IRestart
   | 6 => INotify (n_at s 1) (n_at s 2)
+  | 7 => let u := sx_nth s 2 in                      (* (7 n inner): killed while handling inner, after n commits *)
+         IKill (match n_at u 0 with
+                | 0 => KiSend (n_at u 1) (n_at u 2)
+                | 1 => KiKeys (n_at u 1) (map (fun v => (n_at v 0, (n_at v 1, n_at v 2))) (sx_get_l (sx_nth u 2)))
+                | _ => KiMsg (n_at u 1) (n_at u 2) (enc_of (sx_nth u 3))
+                end) (n_at s 1)
   | _ => IWipe
   end%N.
 
